@@ -76,6 +76,9 @@ func verifC15RunDirect(f verifkit.F, c *verifkit.Case, op verifC15DirectOp) {
 	chain2, cyc, hard := model.Shape()
 	if chain2 || cyc {
 		c.NonTrivial()
+		if c.HasLabel("mode=direct") {
+			c.Label("non-trivial(mode=direct)")
+		}
 	}
 	if chain2 {
 		c.Label("shape:ref-chain>=2")
